@@ -65,6 +65,41 @@ theorem C20_va_list_as_argument_witness :
     body true amb₁ d = "identifier (_abc) cannot start with underscore".toList := by
   decide
 
+/-! ## attribution to the file of origin, multi-file runs -/
+
+/-- in a run over several files (the file on the command line plus schema files found through the current directory /
+    EXPRESS_PATH) every diagnostic of passes 1–3 for schema `s` carries the file `s` was read from, and is printed under
+    it: undefined schema, non-existent or doubly imported item, undefined super/subtype, undefined / circular / entity type -/
+theorem C20_file_of_origin (f : Resolve.File) (s : Resolve.Schema) (fb fwd : Bool) (amb : Ambient) (d : Diag)
+    (h : d ∈ Resolve.pass1 f s ∨ d ∈ Resolve.pass2 f fb s ∨
+         d ∈ Resolve.pass3 (Resolve.fileOf f s) (Resolve.envOf f fb s) s) :
+    d.file = (Resolve.fileOf f s).toList ∧
+    ∃ rest, message fwd amb d = (Resolve.fileOf f s).toList ++ ':' :: rest := by
+  have hb : d.file = (Resolve.fileOf f s).toList ∧ d.via = .symbol := by
+    rcases h with h | h | h
+    · exact Resolve.pass1_file f s d h
+    · exact Resolve.pass2_file f fb s d h
+    · exact Resolve.pass3_file _ _ s d h
+  have hf := hb.1
+  have hv : d.via ≠ .plain := by rw [hb.2]; decide
+  obtain ⟨rest, hr⟩ := C20_file_attributed fwd amb d hv
+  exact ⟨hf, rest, by rw [hr, hf]⟩
+
+/-- SUBTYPE_RESOLVE ("Subtype %s resolves to non-entity %s on line %d."): with the name of the non-entity passed, the
+    arguments fit the format, so `C20_quotes_offender` applies; with only (subtype name, line) — the call as it stood — they do
+    not: the second `%s` consumes the line number as a pointer (check-express aborts in the middle of the message) -/
+theorem C20_subtype_resolve_fits (n dn : String) (dl : Nat) (h : ResolveGen.subtypeResolvePassesName = true) :
+    fits (parseFmt (formatOf LibErrors.SUBTYPE_RESOLVE)) (Resolve.subtypeResolveArgs n dn dl) = true := by
+  have hp : parseFmt (formatOf LibErrors.SUBTYPE_RESOLVE) = parseFmt "Subtype %s resolves to non-entity %s on line %d.".toList := by decide
+  simp only [Resolve.subtypeResolveArgs, h, if_true, hp]
+  simp [parseFmt, fits, convArg, Resolve.sArg]
+
+theorem C20_subtype_resolve_two_args_witness (n : List Char) (dl : Int) :
+    fits (parseFmt (formatOf LibErrors.SUBTYPE_RESOLVE)) [.str n, .int dl] = false := by
+  have hp : parseFmt (formatOf LibErrors.SUBTYPE_RESOLVE) = parseFmt "Subtype %s resolves to non-entity %s on line %d.".toList := by decide
+  rw [hp]
+  simp [parseFmt, fits, convArg]
+
 /-! ## cycle messages -/
 
 /-- a cycle message names an entity / select type that really is on a cycle of the graph that was searched
@@ -194,11 +229,17 @@ theorem C20_errors_always_enabled (guard : Bool) (sws : List Switch) (ov : Overr
     simp only [configure] at h
     simp [key (s :: ss) initOverrides (initOverrides_false code) h]
 
-/-- the three guards of resolve.c are on error-severity codes (regenerated table) -/
+/-- EVERY `ERRORis_enabled( CODE )` site of the front end (regenerated list: all of src/express outside error.c) asks about
+    a code of severity above WARNING — so, by `C20_errors_always_enabled`, no -w / -i switch can change what such a site
+    does (a guard on a warning code would make the guarded look-ups, and the errors they report, depend on the switch) -/
+def guardedSeverityAboveWarning (n : String) : Bool :=
+  match LibErrors.codeEnum.find? (·.1 = n) with
+  | some (_, c) => decide (severityOf c > LibErrors.SEVERITY_WARNING)
+  | none => false
+
 theorem C20_guarded_checks_are_errors :
-    severityOf LibErrors.SELECT_LOOP > LibErrors.SEVERITY_WARNING ∧
-    severityOf LibErrors.SUBSUPER_LOOP > LibErrors.SEVERITY_WARNING ∧
-    severityOf LibErrors.TYPE_IS_ENTITY > LibErrors.SEVERITY_WARNING := by decide
+    ∀ n ∈ ResolveGen.guardedCodeNames, guardedSeverityAboveWarning n = true := by
+  decide
 
 /-- two option lists that differ in one switch of class `X` (`-w X` here, `-i X` there) end in the same way
     (both run, both stop with the usage text, or both crash) and, when they run, with override columns that agree
